@@ -337,23 +337,28 @@ package updog
 //@   && (forall r idx(rgs) :: rgs[r].result != nil && len(rgs[r].fields) == level
 //@        && (arr(rgs[r].fields) == nil || (!(arr(rgs[r].fields) in old($alloc)) && allocated(arr(rgs[r].fields)))))
 
-//@ func [C02,C08,C14,C04,C03] (*Query).groupBy(q, groupByFields, result, idx) (finalResult)
-//@   requires IdxInv(idx) && result != nil
+// every intermediate group holds rows of the expression result only, and from the first refinement on at least one
+//@ pred RGsRows(rgs []resultGroup, level int, rv iset) := forall r idx(rgs) :: subset(rgs[r].result.view, rv) && (level >= 1 ==> card(rgs[r].result.view) > 0)
+//@ func [C02,C08,C14,C04,C03] (*Query).groupBy(q, groupByFields, res0, idx) (finalResult)
+//@   requires IdxInv(idx) && res0 != nil
 //@   ensures [C02] empty_list_no_groups: len(groupByFields) == 0 ==> len(finalResult) == 0
 //@   ensures [C02] shape: forall g idx(finalResult) :: len(finalResult[g].Fields) == len(groupByFields)
+//@   ensures [C02] no_group_without_rows_and_none_larger_than_the_result: forall g idx(finalResult) :: finalResult[g].Count > 0 && finalResult[g].Count <= card(res0.view)
 //@   loop 1
-//@     invariant 0 <= $i && RGsOK(resultGroups, $i)
+//@     invariant 0 <= $i && RGsOK(resultGroups, $i) && RGsRows(resultGroups, $i, res0.view)
 //@   loop 2
 //@     invariant 0 <= $i && RGsOK(resultGroups, $i1) && RGsOK(newResultGroups, $i1 + 1)
 //@     invariant arr(newResultGroups) == nil || arr(newResultGroups) != arr(resultGroups)
+//@     invariant RGsRows(resultGroups, $i1, res0.view) && RGsRows(newResultGroups, $i1 + 1, res0.view)
 //@   loop 3
 //@     invariant 0 <= $i && RGsOK(resultGroups, $i1) && RGsOK(newResultGroups, $i1 + 1)
 //@     invariant arr(newResultGroups) == nil || arr(newResultGroups) != arr(resultGroups)
-//@     invariant rg.result != nil && len(rg.fields) == $i1
+//@     invariant rg.result != nil && len(rg.fields) == $i1 && subset(rg.result.view, res0.view)
+//@     invariant RGsRows(resultGroups, $i1, res0.view) && RGsRows(newResultGroups, $i1 + 1, res0.view)
 //@   loop 4
-//@     invariant 0 <= $i && RGsOK(resultGroups, len(groupByFields))
+//@     invariant 0 <= $i && RGsOK(resultGroups, len(groupByFields)) && RGsRows(resultGroups, len(groupByFields), res0.view) && len(groupByFields) >= 1
 //@     invariant arr(finalResult) == nil || (!(arr(finalResult) in old($alloc)) && allocated(arr(finalResult)))
-//@     invariant forall g idx(finalResult) :: len(finalResult[g].Fields) == len(groupByFields)
+//@     invariant forall g idx(finalResult) :: len(finalResult[g].Fields) == len(groupByFields) && finalResult[g].Count > 0 && finalResult[g].Count <= card(res0.view)
 
 //@ func [C08,C14,C04,C01,C02] (*Index).Execute(idx, q) (result, err)
 //@   requires IdxInv(idx) && q != nil && idx.mtx.held == 0
